@@ -125,6 +125,21 @@ def fill_probe_doc(j):
     return [{'code': 'fill', 'entries': entries}]
 
 
+STRESS_FRAGMENTS = ["'''", '"""', "'", '"', '\n;', '\n;', '\n', ';', '\\', '\\\n', '\\ \n', '\\\t\n', ' \n', 'abc', ' ', '\\\\', '>', '> ',
+                    '#', '_x', 'data_', '$', 'C:\\dir\\', ';\\', 'w' * 2040, 'line ' * 30]
+
+
+def delimiter_stress_doc(rng):
+    """strings assembled from the pieces the writer's choice of delimiter, text-field protocol (folding, prefixing,
+    protection of trailing backslashes) and line breaking look at; scalars and loop values"""
+    def s():
+        t = ''.join(rng.choice(STRESS_FRAGMENTS) for _ in range(rng.randint(2, 7)))
+        return ('char', t, True)
+    entries = [('item', '_s%d' % k, s()) for k in range(4)]
+    entries.append(('loop', ['_l1', '_l2'], [[s(), s()], [s(), ('char', 'plain', False)]]))
+    return [{'code': 'stress', 'entries': entries}]
+
+
 def _run_case_body(ctx, L, i, version=2, scope=None):
     rng = ctx.rng('C02' if version == 2 else 'C13', i)
     big = ctx.tier != 'quick' and i % 50 == 0
@@ -132,6 +147,9 @@ def _run_case_body(ctx, L, i, version=2, scope=None):
     if i < nfill:
         doc = fill_probe_doc(i)
         ctx.count('fill_probes')
+    elif i % 5 == 3:
+        doc = delimiter_stress_doc(rng)
+        ctx.count('delimiter_stress_documents')
     else:
         doc = B.writer_doc(rng, ascii_only=(version == 1), big=big)
     info = dict(index=i, version=version)
@@ -202,7 +220,8 @@ def run(env):
             rule='one evaluation = one CIF built through the API from seeded abstract content (distinct by per-index '
                  'PRNG), written in CIF 2.0 mode; non-trivial = cif_write succeeded and its output passed the header, '
                  'UTF-8 and line-length checks and re-parsed without error to an equivalent CIF',
-            samples=res.samples, systematic_line_fill_probes=res.count('fill_probes'), refused_for_unwritable_table_key=res.count('refused_unwritable_key'),
+            samples=res.samples, systematic_line_fill_probes=res.count('fill_probes'),
+            delimiter_stress_documents=res.count('delimiter_stress_documents'), refused_for_unwritable_table_key=res.count('refused_unwritable_key'),
             bytes_written=res.count('bytes_written'),
             outputs_with={k[len('output_with_'):]: v for k, v in res.counters.items() if k.startswith('output_with_')},
             write_result_codes=sorted(res.sets.get('write_rc', ())), crashes=res.crashes),
